@@ -206,6 +206,16 @@ func TestC05_NumericFields(t *testing.T) {
 	for _, b := range numericFieldInputsV6() {
 		c05.one(t, obs.Hex(b))
 	}
+	// compression pointers to offsets around every power of two, in each option that carries names
+	for _, lb := range pointerOffsetBuffers() {
+		if len(lb) > 4000 {
+			continue
+		}
+		c05.one(t, obs.Hex(append([]byte{7, 1, 2, 3}, v6opt(24, lb)...)))
+		c05.one(t, obs.Hex(append([]byte{7, 1, 2, 3}, v6opt(39, append([]byte{1}, lb...))...)))
+		c05.one(t, obs.Hex(append([]byte{7, 1, 2, 3}, v6opt(56, v6opt(3, lb))...)))
+		c05opt.one(t, c05Opt{Code: 24, Payload: lb})
+	}
 }
 
 func TestC05_DeepRelay(t *testing.T) {
